@@ -142,6 +142,28 @@ class H:
             return symnp.wrap(out, dtype)
         return rnp.array(out.tolist(), dtype=dtype).reshape(shape)
 
+    def bv64(self, name):
+        """an int64 with machine (wrap-around) semantics"""
+        v = self._input(name, z3.BitVecSort(64))
+        return core.SBV(v, True) if self.mode == "sym" else int(v)
+
+    def bv64s(self, name, shape):
+        return self._arr(name, shape, self.bv64, rnp.int64)
+
+    def stub(self, qualname, fn):
+        """modular call substitution: inside this (symbolic) run the mirrored function
+        `qualname` is replaced by `fn` (its contract); the body is verified separately.
+        No effect on concrete replay, which always runs the real code."""
+        if self.mode != "sym":
+            return
+        modname, _, attr = qualname.rpartition(".")
+        mod = mirror.load(modname)
+        c = core.ctx()
+        c.trusted.add("modular: %s replaced by its contract" % qualname)
+        undo = c.memo.setdefault("stub_undo", [])
+        undo.append((mod, attr, getattr(mod, attr)))
+        setattr(mod, attr, fn)
+
     def reals(self, name, shape):
         return self._arr(name, shape, self.real, rnp.float64)
 
@@ -731,6 +753,77 @@ def run_contract(contract, tier="quick", findings=None, want_sample=False):
 def _short_tb():
     tb = traceback.format_exc().strip().splitlines()
     return " | ".join(l.strip() for l in tb[-6:])
+
+
+# ----------------------------------------------------------------------------- bounded stand-in from a contract
+
+
+def contract_inputs(contract, findings=None):
+    """names and sorts of the inputs a contract declares (probe by one symbolic run)"""
+    h = H(contract, "sym", findings=findings)
+    paths, _ = core.explore(lambda: contract.fn(h), max_paths=contract.max_paths)
+    ins = {}
+    for p in paths:
+        for n, v in p.ctx.inputs.items():
+            ins[n] = v.sort()
+    return ins
+
+
+def enumerate_contract(contract_id, domains, tier="quick", seed=0, limit=20000, findings=None, note=""):
+    """evaluate a contract's own text on the REAL code for every assignment of its scalar
+    inputs over small finite domains (exhaustive when the product fits `limit`, seeded
+    sample otherwise).  Bounded: labelled as such, never counted as proved."""
+    import itertools
+    import random
+
+    contract = next(c for c in CONTRACTS if c.id == contract_id)
+    ins = contract_inputs(contract, findings)
+    names = sorted(ins)
+    doms = []
+    for n in names:
+        srt = ins[n]
+        if srt == z3.IntSort():
+            doms.append(domains.get("int", [0, 1, 2]))
+        elif srt == z3.BoolSort():
+            doms.append([False, True])
+        elif srt == z3.RealSort():
+            doms.append(domains.get("real", [0.0, 1.0, -1.5]))
+        else:
+            doms.append(domains.get("bv", [0, 1, -1, 2**62, -(2**62), 2**63 - 1, -(2**63)]))
+    total = 1
+    for d in doms:
+        total *= len(d)
+    exhaustive = total <= limit
+    if exhaustive:
+        it = itertools.product(*doms)
+    else:
+        rnd = random.Random(seed)
+        it = (tuple(rnd.choice(d) for d in doms) for _ in range(limit))
+    cases = 0
+    seen = set()
+    failures = []
+    sample = None
+    skipped = 0
+    for combo in it:
+        vals = dict(zip(names, combo))
+        rr = replay_concrete(contract, vals, findings)
+        if rr["status"] == "invalid":
+            skipped += 1
+            continue
+        cases += 1
+        seen.add(combo)
+        if sample is None:
+            sample = {"inputs": vals, "result": rr["status"]}
+        if rr["status"] in ("fail", "exception") and len(failures) < 5:
+            failures.append({"inputs": vals, "replay": rr, "contract": contract.id})
+    return {
+        "cases": cases,
+        "distinct": len(seen),
+        "exhaustive": exhaustive,
+        "bound": "%s: all %d inputs over domains %s%s; %d assignments outside the precondition skipped" % (contract.id, len(names), {k: v for k, v in domains.items()}, "" if exhaustive else " (seeded sample of %d of %d)" % (limit, total), skipped),
+        "failures": failures,
+        "sample": sample,
+    }
 
 
 # ----------------------------------------------------------------------------- canary
